@@ -187,14 +187,12 @@ def box_atom(v, b):
 
 
 def prune(ex, ms=1500):
-    """drop a path whose condition is unsatisfiable but was kept by a timed-out feasibility query (goals on such a path
-    are trivially true and would only blur the vacuity accounting)"""
+    """drop a path whose condition is unsatisfiable but was kept by a timed-out feasibility query of the explorer (goals
+    on such a path are trivially true and would only blur the vacuity accounting); nlsat decides these quickly"""
     if not ex.symbolic:
         return
-    s = z3.Solver()
-    s.set('timeout', ms)
-    s.add(*ex.pc)
-    if s.check() == z3.unsat:
+    st = sym.solve(list(ex.pc), ms / 1000.0, order=('nlsat',))[0]
+    if st == 'unsat':
         ex.cut('infeasible path (late detection)')
 
 
@@ -646,7 +644,7 @@ def _reg_spg(nonmonotone, hist, pattern, tiers):
 
     def ob(h):
         _o4_note(h)
-        px.run_px(h, 'body', make_spg_body_harness(pattern, nonmonotone, hist), cap=40, order=('nlsat', 'core'), div_mode='goal', sqrt_mode='goal', feas_ms=150,
+        px.run_px(h, 'body', make_spg_body_harness(pattern, nonmonotone, hist), cap=40, order=('nlsat', 'core'), div_mode='goal', sqrt_mode='goal', feas_ms=60,
                   expect_goals=SPG_GOALS_BODY)
     ob.__doc__ = ('one body of the SPG loop of solve_spg_subproblem (%s line search, history %s, n=%d, bound kinds %s) from an arbitrary loop-head state satisfying the invariant: '
                   'alpha in [0,1], x+z stays in the box and |z| <= trSize, bookkeeping identities for d and q, honest returns' % ('non-monotone' if nonmonotone else 'exact', hist, n, '/'.join(pattern)))
